@@ -2,7 +2,7 @@
 from vcore import Case
 from dlib import Q, Par, ALL, API_OF, keygen, decode_sig, decode_sk, cmod
 import pyref
-from props.c05 import crafted_sk
+from props.c05 import crafted_sk, corpus
 
 RULE = ("signatures produced by the crate in every mode (deterministic; hedged/randomized with the REAL RNG, whose output cannot be predicted; scripted), "
         "with generated keys and with crafted secret keys (t0 at +-2^12) that make the c*t0 and hint-count tests matter; each signature is decoded "
@@ -36,6 +36,11 @@ def gen(tier, rng):
         # one model-compared case per set (cheap message found with the Python signer)
         best = min((bytes(rng.randrange(256) for _ in range(10)) for _ in range(10)), key=lambda mm: len(pyref.sign(p, sk, mm, want_trace=True)[1]))
         out.append(Case("signature", cp, [bytes(p.sig), best, sk, 0, b""], ["in_domain", "deterministic", "model-compared"]))
+    # committed rare-path corpus: attempts rejected only by ||c*t0|| >= gamma2, and rejection chains of 37..165 attempts
+    for name, tag in (("c05_ct0_rejections.json", "cause-ct0"), ("c05_long_chains.json", "long-chain")):
+        for e in corpus(name):
+            out.append(Case("signature_live", e["set"], [bytes.fromhex(e["msg"]), bytes.fromhex(e["sk"]), 0],
+                            ["in_domain", "deterministic", "crafted-key", tag, "corpus", "crate-only"]))
     return out
 
 
